@@ -365,6 +365,10 @@ func (a *actor) runReader(t *thread) {
 			})
 		}
 		if errors.Is(err, mqtt.ErrClosed) {
+			if rs.Backoff && backoff != nil {
+				// the documented read loop ends on a nil channel; anything else keeps it spinning
+				a.later(func() { w.ev(Event{K: "backoff", T: a.spec.Name, N: -2, R: d.Class}) })
+			}
 			return
 		}
 		if rs.Backoff && err != nil && !d.Big {
